@@ -66,9 +66,14 @@ func newWorld() (*world, error) {
 	}
 	// HOME points to a directory without .config/heimdall.yaml; nothing else is needed by the loader
 	w.keep["HOME"] = filepath.Join(dir, "cwd")
-	for _, k := range []string{"PATH", "TMPDIR"} {
-		if v, ok := os.LookupEnv(k); ok {
-			w.keep[k] = v
+	for _, kv := range w.saved {
+		i := strings.IndexByte(kv, '=')
+		if i <= 0 {
+			continue
+		}
+		// what the harness and the Go runtime need stays defined; nothing of it starts with the loader's prefix
+		if k := kv[:i]; k == "PATH" || k == "TMPDIR" || strings.HasPrefix(k, "VERIF_") || strings.HasPrefix(k, "GO") {
+			w.keep[k] = kv[i+1:]
 		}
 	}
 	if err := w.writeKeys(); err != nil {
